@@ -31,6 +31,8 @@ def check(chk, thorough=False):
     chk.run('C13.i', 'R-TRUTH', 'the MTU applied is the configured one: the configuration loader hands every setting on as read', lambda ob: __import__('sa.props.common', fromlist=['config_verbatim']).config_verbatim(tree, ob, 'udpcl/config.py'), floor=2)
     chk.run('C13.j', 'R-FRESH', 'the queues, maps and pacing state of a UDPCL agent belong to that agent object (created per instance, no shared default objects)', lambda ob: (__import__('sa.props.common', fromlist=['per_instance_state', 'fresh_defaults']).per_instance_state(tree, ob, 'udpcl/agent.py', ('Agent', 'TxSendWait')), __import__('sa.props.common', fromlist=['per_instance_state', 'fresh_defaults']).fresh_defaults(tree, ob, ['udpcl/agent.py', 'udpcl/config.py'])), floor=3)
     chk.run('C13.k', 'R-ORDER', 'a bundle that cannot be sent costs that bundle only: the head item leaves the TX queue before it is worked on', lambda ob: __import__('sa.props.common', fromlist=['tx_queue_head_leaves_first']).tx_queue_head_leaves_first(tree, ob, 'udpcl/agent.py'), floor=1)
+    chk.run('C13.l', 'R-GUARD', 'the TX worker is started whenever the queue holds something (not only for the first item): a failed send does not leave the bundles behind it waiting for ever', lambda ob: __import__('sa.props.common', fromlist=['tx_trigger_whenever_nonempty']).tx_trigger_whenever_nonempty(tree, ob, 'udpcl/agent.py'), floor=1)
+    chk.run('C13.m', 'R-GUARD', 'bookkeeping on the receive path cannot drop a datagram: a record key that starts at None (ECN state of a peer) is used in arithmetic only under an "is not None" test', lambda ob: __import__('sa.props.common', fromlist=['optional_record_guarded']).optional_record_guarded(tree, ob, 'udpcl/agent.py'), floor=1)
     chk.run('C13.f', 'R-PAIR', 'queue then announce the same id; ids come from a counter that only increments', lambda ob: c13f(tree, ob), floor=3)
 
 
